@@ -17,6 +17,8 @@ def msg_tag(msg):
     if t == 'program_change':
         return (v['channel'], v['program'])
     if t == 'control_change':
+        if v['control'] in (120, 121, 123):          # panic / reset bursts: ordered by channel
+            return ('cc%d' % v['control'], v['channel'])
         return (v['channel'], v['control'])
     return ('?', t)
 
